@@ -306,5 +306,68 @@ func TestVerifReplayDeviations(t *testing.T) {
 			}
 		}
 	}
+	// two paths whose elements joined with "/" read the same: key values may hold any character. The one that is missing
+	// in running must not pass for the one that is there.
+	{
+		n++
+		p1 := []string{"doublekey", "a/b", "c", "mandato"}
+		p2 := []string{"doublekey", "a", "b/c", "mandato"}
+		ctrl := gomock.NewController(t)
+		cc := mockcacheclient.NewMockClient(ctrl)
+		run := cache.NewUpdate(p1, vrdBytes("x"), 0, "running", 0)
+		iA := cache.NewUpdate(p1, vrdBytes("x"), 10, "A", 0)
+		iB := cache.NewUpdate(p2, vrdBytes("y"), 10, "B", 1)
+		cc.EXPECT().ReadCh(gomock.Any(), gomock.Any(), gomock.Any(), gomock.Any(), gomock.Any()).AnyTimes().DoAndReturn(
+			func(_ context.Context, _ string, opts *cache.Opts, _ [][]string, _ time.Duration) chan *cache.Update {
+				ch := make(chan *cache.Update, 2)
+				if opts.Store == cachepb.Store_CONFIG {
+					ch <- run
+				}
+				close(ch)
+				return ch
+			})
+		cc.EXPECT().Read(gomock.Any(), gomock.Any(), gomock.Any(), gomock.Any(), gomock.Any()).AnyTimes().DoAndReturn(
+			func(_ context.Context, _ string, opts *cache.Opts, paths [][]string, _ time.Duration) []*cache.Update {
+				if opts.Store == cachepb.Store_INTENDED && len(paths) == 1 {
+					switch strings.Join(paths[0], "\x00") {
+					case strings.Join(p1, "\x00"):
+						return []*cache.Update{iA}
+					case strings.Join(p2, "\x00"):
+						return []*cache.Update{iB}
+					}
+				}
+				return nil
+			})
+		cc.EXPECT().GetKeys(gomock.Any(), gomock.Any(), gomock.Any()).AnyTimes().DoAndReturn(
+			func(_ context.Context, _ string, store cachepb.Store) (chan *cache.Update, error) {
+				ch := make(chan *cache.Update, 2)
+				if store == cachepb.Store_INTENDED {
+					ch <- iA
+					ch <- iB
+				}
+				close(ch)
+				return ch, nil
+			})
+		scl, schema, err := testhelper.InitSDCIOSchema()
+		if err != nil {
+			t.Fatal(err)
+		}
+		d := &Datastore{config: &config.DatastoreConfig{Name: "dev1", Schema: schema}, cacheClient: cc,
+			schemaClient: schemaClient.NewSchemaClientBound(schema.GetSchema(), scl), m: &sync.RWMutex{}, md: &sync.RWMutex{}}
+		st := &vrdStream{}
+		d.runDeviationUpdate(context.Background(), map[string]sdcpb.DataServer_WatchDeviationsServer{"c1": st})
+		reportedB := false
+		var got []string
+		for _, m := range st.msgs {
+			if m.GetEvent() == sdcpb.DeviationEvent_UPDATE {
+				got = append(got, fmt.Sprintf("%s intent=%s path=%s", m.GetReason(), m.GetIntent(), utils.ToXPath(m.GetPath(), false)))
+				reportedB = reportedB || m.GetIntent() == "B"
+			}
+		}
+		if !reportedB || len(got) != 1 {
+			fmt.Printf("REPLAY-FAIL fn=%s clause=reports_exactly_the_deviations input=running=doublekey[key1=a/b][key2=c]/mandato (held by intent A),intent B holds doublekey[key1=a][key2=b/c]/mandato which running lacks why=reported %v, the deviation is NOT_APPLIED for intent B\n", fn, got)
+		}
+		ctrl.Finish()
+	}
 	fmt.Printf("REPLAY-CASES fn=%s n=%d\n", fn, n)
 }
